@@ -74,7 +74,22 @@ def T_case(name, i):
     return [f"({mixed})=", f"TM{i} para"], [dict(name=mixed, marker=f"TM{i} para", title=None, kind="tgt-case", explicit=True)]
 
 
-TK = {"tgt-para": T_target_para, "tgt-head": T_target_head, "attr-para": T_attr_para, "attr-head": T_attr_head,
+def T_slug_cap(name, i):
+    # a one-word capitalised title: the slug is lower-case, docutils' implicit name of the section is the lower-cased title as well
+    return [f"## {name.capitalize()}"], [dict(name=name.lower(), marker=name.capitalize(), title=name.capitalize(), kind="slug-cap", explicit=False, ordinal=0)]
+
+
+def T_uni(name, i):
+    # a non-ASCII explicit name (the href is percent-encoded by the Markdown parser, every link spelling must decode it)
+    return [f"({name}\u00e9)=", f"TM{i} para"], [dict(name=name + "\u00e9", marker=f"TM{i} para", title=None, kind="tgt-uni", explicit=True)]
+
+
+def T_deep_head(name, i):
+    # a heading below the anchor depth (heading_anchors=3): it has a docutils implicit name, but no slug, so '#<title>' names nothing
+    return ["## Mid", "", "### Low", "", f"#### {name}deep"], [dict(name="mid", marker="Mid", title="Mid", kind="slug", explicit=False, ordinal=0)]
+
+
+TK = {"slug-cap": T_slug_cap, "deep-head": T_deep_head, "tgt-uni": T_uni, "tgt-para": T_target_para, "tgt-head": T_target_head, "attr-para": T_attr_para, "attr-head": T_attr_head,
       "dir-name": T_dir_name, "slug": T_slug, "slug-dup": T_slug_dup, "slug-dup3": T_slug_dup3, "tgt-case": T_case}
 FORMS = ["text", "empty", "auto", "nested"]
 CTX = {
@@ -141,10 +156,10 @@ def resolve_model(infos, name):
     slug = [i for i in infos if not i["explicit"] and i["name"] == name]
     if slug:
         return "hit", slug[0]
-    ci = [i for i in infos if i["name"].lower() == name.lower()]
+    ci = [i for i in infos if i["name"].lower() == name.lower() and i["explicit"]]
     if ci:
-        return "case-variant", ci[0]
-    return "missing", None
+        return "case-variant", ci[0]  # (docutils compares explicit names case-insensitively: either outcome is accepted)
+    return "missing", None  # a case variant of a heading SLUG is not that slug: the target does not exist
 
 
 def node_matches(node, info, doc):
@@ -186,8 +201,10 @@ class LinkSystem(System):
         kinds = list(TK)
         for k in kinds:
             yield [(k, "aa")]
-        for k1 in kinds:
-            for k2 in kinds:
+        for a, k1 in enumerate(kinds):
+            for b, k2 in enumerate(kinds):
+                if self.tier == "quick" and b < a:
+                    continue  # quick: unordered kind pairs (both orders of the explicit-vs-slug pairs follow); ordered pairs in the thorough tier
                 yield [(k1, "aa"), (k2, "bb")]
         # priority clause: explicit target and heading slug with the same name
         for k1 in ("tgt-para", "attr-para", "dir-name", "tgt-head"):
@@ -199,7 +216,9 @@ class LinkSystem(System):
             if self.two and self.tier == "quick" and len(targets) == 2 and targets[0][1] != targets[1][1]:
                 continue  # quick: two links against single targets and the explicit-vs-slug priority pairs; all pairs in the thorough tier
             has_case = any(k == "tgt-case" for k, _ in targets)
-            names = ["aa", "bb", "zz", "aa-1"] + (["Aa-X", "aa-x"] if has_case else []) + (["aa-2"] if any(k == "slug-dup3" for k, _ in targets) else [])
+            names = (["aa", "bb", "zz", "aa-1"] + (["Aa-X", "aa-x"] if has_case else []) + (["Aa", "AA"] if any(k == "slug-cap" for k, _ in targets) else [])
+                     + (["aadeep", "Aadeep", "bbdeep"] if any(k == "deep-head" for k, _ in targets) else []))
+            names = names + (["aa\u00e9", "zz\u00e9"] if any(k == "tgt-uni" for k, _ in targets) else []) + (["aa-2"] if any(k == "slug-dup3" for k, _ in targets) else [])
             if not self.two:
                 for tctx in CTX:
                     for form in FORMS:
